@@ -103,7 +103,8 @@ type side struct {
 	flog    [2][]string
 	sub     avfs.VFS
 	suborig string
-	subObs  hooked // the same subtree obtained from the base directly: dumps what the pooled Sub sees
+	subObs  hooked         // the same subtree obtained from the base directly: dumps what the pooled Sub sees
+	lower   *failfs.FailFS // stacks whose lower layer is a FailFS (stack.go): that layer
 }
 
 // consRec is one consultation of the failure function.
@@ -132,6 +133,8 @@ type callCtx struct {
 type sys struct {
 	baseName string
 	plan     string // none | okfunc | readonly | fault
+	stack    string // what the FailFS under test is built on besides the bare base (stack.go); "": the base itself
+	lowerFn  string // ff-ro-mid stack: the function the lower FailFS carries now
 	ops      []op
 
 	impl, twin *side
@@ -169,8 +172,8 @@ type sys struct {
 	setupChecked bool
 }
 
-func newSys(baseName, plan string) *sys {
-	return &sys{baseName: baseName, plan: plan, ops: buildOps(baseName), K: -1, invoked: map[avfs.FnVFS]bool{}}
+func newSys(baseName, plan, stack string) *sys {
+	return &sys{baseName: baseName, plan: plan, stack: stack, ops: buildOps(baseName, stack), K: -1, invoked: map[avfs.FnVFS]bool{}}
 }
 
 func (s *sys) NumOps() int           { return len(s.ops) }
@@ -279,15 +282,38 @@ func (s *sys) Reset() error {
 		return err
 	}
 
+	if !knownStack(s.stack) || (s.stack != "" && s.plan == "readonly") || (planOnLower(s.stack) && s.plan == "none") {
+		return fmt.Errorf("no system %s", sysName(s.baseName, s.plan, s.stack))
+	}
+
 	s.impl = &side{base: a}
-	s.ff = failfs.New(a)
+	s.lowerFn = "OkFunc"
+
+	// what the FailFS under test is built on: the base, or a wrapper of it (stack.go)
+	var under avfs.VFS
+
+	if k, msg := fsx.Guard(func() { under, err = s.under(s.impl) }); k != "" {
+		return fmt.Errorf("stack %s on %s: %s %s", s.stack, s.baseName, k, msg)
+	}
+
+	if err != nil {
+		return fmt.Errorf("stack %s on %s: %v", s.stack, s.baseName, err)
+	}
+
+	s.armLower(s.impl, true, "pre")
+
+	s.ff = failfs.New(under)
 	s.impl.top = s.ff
 	s.twin = nil
+
+	s.armLower(s.impl, true, "post")
 
 	switch s.plan {
 	case "none":
 	case "okfunc", "fault":
-		_ = s.ff.SetFailFunc(s.failFn)
+		if !planOnLower(s.stack) {
+			_ = s.ff.SetFailFunc(s.failFn)
+		}
 	case "readonly":
 		_ = s.ff.SetFailFunc(failfs.ReadOnlyFunc)
 		s.impl.obs = a
@@ -311,6 +337,24 @@ func (s *sys) Reset() error {
 		}
 
 		s.twin = &side{base: b, top: b}
+
+		if twinWrapped(s.stack) {
+			// transparency with a wrapped base: the twin is the same wrapper, driven directly
+			var t avfs.VFS
+
+			if k, msg := fsx.Guard(func() { t, err = s.under(s.twin) }); k != "" {
+				return fmt.Errorf("stack %s on the twin %s: %s %s", s.stack, s.baseName, k, msg)
+			}
+
+			if err != nil {
+				return fmt.Errorf("stack %s on the twin %s: %v", s.stack, s.baseName, err)
+			}
+
+			s.twin.top = t
+
+			s.armLower(s.twin, false, "pre")
+			s.armLower(s.twin, false, "post")
+		}
 
 		// harness self-check (the fault plan builds instances by the hundred thousand: first build only)
 		if s.plan != "fault" || !s.setupChecked {
@@ -402,7 +446,10 @@ func (s *sys) roDump() string {
 	return sb.String()
 }
 
-func viewState(v avfs.VFS) string {
+// viewState: cwd, umask and user of a Sub file system. getwd: a view without
+// the CurDir accessor (the Sub of a wrapper) may be asked through Getwd - only
+// on the twin side, where no recording failure function can be consulted.
+func viewState(v avfs.VFS, getwd bool) string {
 	if v == nil {
 		return "-"
 	}
@@ -410,6 +457,14 @@ func viewState(v avfs.VFS) string {
 	cd := "?"
 	if c, ok := v.(interface{ CurDir() string }); ok {
 		cd = c.CurDir()
+	} else if getwd {
+		fsx.Guard(func() {
+			if d, err := v.Getwd(); err == nil {
+				cd = d
+			} else {
+				cd = "!" + fsx.ErrKind(err)
+			}
+		})
 	}
 
 	u := "?"
@@ -462,7 +517,11 @@ func (s *sys) keySide(sb *strings.Builder, ref *side, ri int, probe, withBase bo
 		fmt.Fprintf(sb, "\nh%d: %s", slot, s.handleDesc(ref, slot, probe))
 	}
 
-	fmt.Fprintf(sb, "\nsub: %s %s\nrnd=%d", ref.suborig, viewState(ref.sub), s.rnd[ri])
+	fmt.Fprintf(sb, "\nsub: %s %s\nrnd=%d", ref.suborig, viewState(ref.sub, ri == 1 && twinWrapped(s.stack)), s.rnd[ri])
+
+	if s.stack == stRoMid {
+		sb.WriteString("\nlower=" + s.lowerFn)
+	}
 
 	// The directory a Sub is rooted at can be removed from the tree (RemoveAll of
 	// an ancestor): what is then made through the Sub lives in a detached subtree
@@ -576,6 +635,10 @@ func (s *sys) sig(ctx callCtx, kind, want, got string) map[string]string {
 
 	if s.plan == "fault" && s.fired {
 		m["fn"] = s.faultFn.String()
+	}
+
+	if s.stack != "" {
+		m["stack"] = s.stack
 	}
 
 	return m
@@ -903,6 +966,15 @@ func (s *sys) Step(i int) bfs.StepResult {
 	idx := s.nsteps
 	s.nsteps++
 
+	if o.Thru == "lower" {
+		out := s.stepLower(o)
+		key := s.key()
+		changed := key != s.lastKey
+		s.lastKey = key
+
+		return bfs.StepResult{Changed: changed, Key: key, Outcome: out}
+	}
+
 	switch s.plan {
 	case "readonly":
 		return s.stepReadonly(o, idx)
@@ -999,7 +1071,7 @@ func (s *sys) compareSides(o op, oi, ot stepOut, skippedClose bool) (broken bool
 	if (s.impl.sub == nil) != (s.twin.sub == nil) {
 		broken = true
 	} else if s.impl.sub != nil {
-		if va, vb := viewState(s.impl.sub), viewState(s.twin.sub); va != vb && !strings.Contains(va, "cwd=?") {
+		if va, vb := viewState(s.impl.sub, false), viewState(s.twin.sub, false); va != vb && !strings.Contains(va, "cwd=?") {
 			s.addViol(s.sig(oi.ctx, s.diffKind(), "same Sub view state", "Sub view state differs"), "twin "+vb+" FailFS "+va)
 
 			broken = true
